@@ -446,11 +446,15 @@ theorem c04_src_conforms_total (H : Bytes → Bytes) (t : Cell) (wf : TreeWF H t
   intro o hv hn hP
   exact (c04_src_conforms_any_order H t wf ty p hb nc fuel d hd o hv hn hP).2
 
-/-- non-vacuity, evaluated: on the diamond DAG (root → m1, m2 → shared leaf) the regenerated `Cell.order` returns the four
-distinct cells root first, and the regenerated `to_boc` with index + CRC + cache bits returns bytes -/
-example : (order 50 Proofs.BocOrder.Example.root []).map (fun d => (Py.dictKeys d).map PCell.key) =
-      some ([Proofs.BocOrder.Example.root, Proofs.BocOrder.Example.m1, Proofs.BocOrder.Example.m2,
-        Proofs.BocOrder.Example.leaf].map PCell.key) ∧
+/-- non-vacuity, evaluated: on the diamond DAG (root → m1, m2 → shared leaf) the regenerated `Cell.order` returns four distinct
+cells, the root first and the shared leaf last (the two middle cells in whichever order the source visits them), and the
+regenerated `to_boc` with index + CRC + cache bits returns bytes -/
+example : ((order 50 Proofs.BocOrder.Example.root []).map (fun d => (Py.dictKeys d).map PCell.key) =
+        some ([Proofs.BocOrder.Example.root, Proofs.BocOrder.Example.m1, Proofs.BocOrder.Example.m2,
+          Proofs.BocOrder.Example.leaf].map PCell.key) ∨
+      (order 50 Proofs.BocOrder.Example.root []).map (fun d => (Py.dictKeys d).map PCell.key) =
+        some ([Proofs.BocOrder.Example.root, Proofs.BocOrder.Example.m2, Proofs.BocOrder.Example.m1,
+          Proofs.BocOrder.Example.leaf].map PCell.key)) ∧
     (to_boc 50 Proofs.BocOrder.Example.root true true true 0).isSome = true := by
   constructor <;> decide +kernel
 
